@@ -13,6 +13,7 @@ import (
 
 // effects of a code region
 type Effects struct {
+	extraTypes []*Term // type tags allocated by contracted callees
 	vars   map[types.Object]bool
 	arrays map[string]*arrEffect // heap array name -> effect
 	all    bool                  // unknown call: everything
@@ -468,6 +469,10 @@ func (vc *VC) callEffects(eff *Effects, call *ast.CallExpr, info *types.Info, de
 		vc.specEffects(eff, spec, fn, key)
 		if fi := vc.prog.ByObj[fn]; fi != nil && !spec.Trusted && !spec.ModAll {
 			fp := vc.footprint(fi)
+			eff.extraTypes = append(eff.extraTypes, fp.types...)
+			if fp.all {
+				eff.all = true
+			}
 			for n, srt := range fp.arrays {
 				a := eff.arr(n)
 				if a.sort == nil {
@@ -764,6 +769,9 @@ func (vc *VC) havocEffects(s *State, eff *Effects) {
 	}
 	na := Fresh("alloc", SInt)
 	s.assume(Ge(na, s.alloc))
+	if f := allocTypesFact(append(effectTypeTags(eff), eff.extraTypes...), s.alloc, na); f != nil {
+		s.assume(f)
+	}
 	s.alloc = na
 	for _, name := range names {
 		vc.assumeFrame(s, name)
